@@ -8,8 +8,8 @@ import gen_prog
 
 ID = "C09"
 PROP_FILE = "props/C09.v"
-COQ_TARGETS = ["props/C09.v"]
-THEOREMS = ["C09_handler_log", "C09_third_party"]
+COQ_TARGETS = ["props/C09.v", "model/SysHist.v"]
+THEOREMS = ["C09_handler_log", "C09_third_party", "C09_histories", "C09_histories_refuted"]
 TRUSTED_BASE = [
     "Coq 8.16.1 kernel, vm_compute for the in-coqc correspondence",
     "model/SysTrace.v: CPython 3.12's trace_trampoline rule (transcribed, validated by K-sys against the real interpreter) and a hand "
@@ -160,6 +160,70 @@ def coq_cases_file(rows):
     return "\n".join(L) + "\n"
 
 
+# ---------------------------------------------------------------- histories: model/SysHist.v
+def hist_tree(c, rec, intern):
+    """the frame tree of the plain recorder's log, with the program's settrace calls (and the frames of the non-accepted helper they are made in)
+    placed after the line events of the tp_step(...) lines of the module frame"""
+    steps = {}
+    for ln, text in enumerate(c["src_mid"].splitlines(), 1):
+        if text.startswith("tp_step("):
+            steps[ln] = text[len("tp_step('"):-2]
+    root = ["root", []]
+    stack = [root]
+    for evt, name, line in rec:
+        if evt == "call":
+            fr = [intern(name), []]
+            stack[-1][1].append(("F", fr))
+            stack.append(fr)
+        elif evt == "line":
+            stack[-1][1].append(("L",))
+            if len(stack) == 2 and name == "<module>" and line in steps:
+                what = steps[line]
+                g = {"A": 0, "B": 1, "off": None}[what.split(":")[-1]]
+                if what.startswith("ext:"):
+                    stack[-1][1].append(("X", intern("ext"), g))
+                else:
+                    stack[-1][1].append(("S", g))
+        elif evt == "exception":
+            stack[-1][1].append(("E",))
+        elif evt == "return":
+            stack.pop()
+    return [x[1] for x in root[1] if x[0] == "F"]
+
+
+def hist_frame(fr, acc="true"):
+    name, items = fr
+    parts = []
+    for it in items:
+        if it[0] == "L":
+            parts.append("Nd TLine []")
+        elif it[0] == "E":
+            parts.append("Nd TExc []")
+        elif it[0] == "S":
+            parts.append("Nd (TSet %s) []" % ("None" if it[1] is None else "(Some %d%%nat)" % it[1]))
+        elif it[0] == "X":
+            parts.append("Nd (TFrame false %d%%N) [Nd TLine []; Nd TLine []; Nd (TSet %s) []; Nd TLine []; Nd TLine []]"
+                         % (it[1], "None" if it[2] is None else "(Some %d%%nat)" % it[2]))
+        else:
+            parts.append(hist_frame(it[1]))
+    return "Nd (TFrame %s %d%%N) [%s]" % (acc, name, "; ".join(parts))
+
+
+def hist_cases_file(rows):
+    L = ["From Coq Require Import List NArith Bool Arith.", "Import ListNotations.", "From PyccoloV Require Import gen.SysFlags model.SysHist.",
+         "Definition ev (e : sevt) : nat := match e with SCall => 0 | SLine => 1 | SRet => 2 | SExc => 3 end.",
+         "Definition wh (w : who) : nat * nat := match w with WH => (9, 0) | WG i => (0, i) | WL i => (1, i) end.",
+         "Definition one (tps : nat -> third) (sub : sevt -> bool) (g : option nat) (fs : list node) :=",
+         "  let '(g1, l) := fold_left (fun st f => let '(g0, l0) := st in let '(g', l') := pyc tps sub sys_checks_uninstall sys_wraps_foreign g0 f in (g', l0 ++ l')) fs (g, []) in",
+         "  (match g1 with None => 9 | Some i => i end, map (fun x => (ev (fst x), snd x)) (handler_log l), map (fun x => (wh (fst (fst x)), ev (snd (fst x)), snd x)) (third_log l))."]
+    for (S, kind, declined, pre, frames) in rows:
+        sub = "fun e => match e with %s end" % " | ".join("%s => %s" % (k, "true" if v in S else "false") for k, v in [("SCall", "call"), ("SLine", "line"), ("SRet", "return"), ("SExc", "exception")])
+        acc = "fun nm => negb (existsb (N.eqb nm) [%s])" % "; ".join("%d%%N" % d for d in declined) if kind == "selective" else "fun _ => true"
+        tps = "fun i => match i with O => {| tp_accepts := %s; tp_self := %s |} | _ => {| tp_accepts := fun _ => true; tp_self := true |} end" % (acc, "true" if kind == "self" else "false")
+        L.append("Eval vm_compute in one (%s) (%s) %s [%s]." % (tps, sub, "(Some 0%nat)" if pre == "A" else "None", "; ".join(hist_frame(f) for f in frames)))
+    return "\n".join(L) + "\n"
+
+
 def run(ctx, model_ok):
     rng = ctx.rng
     n = 90 if ctx.tier == "quick" else 900
@@ -211,6 +275,46 @@ def run(ctx, model_ok):
                     validated += 1
         if mism:
             ctx.tie_broken("correspondence", "model/SysTrace.v and the real runs disagree on %d of %d cases" % (len(mism), len(rows)), json.dumps(mism[0])[:3000])
+        # histories against model/SysHist.v
+        hrows, hidx = [], []
+        for i, (c, r) in enumerate(zip(cases, impl)):
+            if "crash" in r or c["install"] != "hist":
+                continue
+            names = {}
+
+            def intern(nm, names=names):
+                return names.setdefault(nm, len(names) + 1)
+            frames = hist_tree(c, r["plain"]["rec"], intern)
+            declined = [v for k, v in names.items() if k.startswith("g")]
+            hrows.append((set(c["events"]), c["third_party"], declined, c["pre"], frames, dict(names)))
+            hidx.append(i)
+        hshards = [(k, hrows[k:k + 12], hidx[k:k + 12]) for k in range(0, len(hrows), 12)]
+        houts = lib.coq_eval_many([("c09_hist_%d" % k, hist_cases_file([r[:5] for r in rs])) for k, rs, _ in hshards], timeout=1200)
+        EV = {0: "call", 1: "line", 2: "return", 3: "exception"}
+        hm = []
+        for k, rs, ids in hshards:
+            rc, out = houts["c09_hist_%d" % k]
+            vals = lib.parse_marked(out) if rc == 0 else []
+            if rc != 0 or len(vals) != len(rs):
+                ctx.tie_broken("correspondence", "coqc failed on exported histories (rc=%s, %d/%d)" % (rc, len(vals), len(rs)), out[-3000:])
+                continue
+            for row, i, v in zip(rs, ids, vals):
+                inv = {vv: kk for kk, vv in row[5].items()}
+                g1, hl, tl = lib.parse_coq_list(v)
+                mh = [[EV[e], inv[nm]] for e, nm in hl]
+                mt = [["AB"[wi] + ("G" if wk == 0 else "L"), EV[e], inv[nm]] for wk, wi, e, nm in tl]
+                ih = [[e[0], e[1]] for e in impl[i]["traced"]["hlog"]]
+                it = [[e[0], e[1], e[2]] for e in impl[i]["traced"]["tp_log"]]
+                after = {0: "A", 1: "B", 9: None}[g1]
+                if mh != ih or mt != it or after != impl[i]["traced"]["tp_in_place_after"]:
+                    hm.append({"case": {kk: cases[i][kk] for kk in ("events", "third_party", "install", "steps", "pre")}, "src_tail": cases[i]["src_mid"][-500:],
+                               "handler_log_equal": mh == ih, "third_log_equal": mt == it, "after": [after, impl[i]["traced"]["tp_in_place_after"]],
+                               "model_t": mt[:12], "impl_t": it[:12]})
+                else:
+                    validated += 1
+        if hm:
+            mism += hm
+            ctx.tie_broken("correspondence", "model/SysHist.v and the real settrace histories disagree on %d of %d cases" % (len(hm), len(hrows)), json.dumps(hm[0])[:3500])
     hist = {}
     for c in cases:
         key = "%s/%s" % (c["third_party"], c["install"])
